@@ -81,7 +81,7 @@ def rule_l_handle(ctx):
         R.inst(fn=b.path, verdict="ok" if not bad else "VIOLATION")
         if bad:
             R.viol(b.path, b.where(Loc(0, 0)), "%s keeps using its bucket after the call returns but reaches %s" % (b.path, "; ".join(bad[:3])))
-    R.floor(14, "borrowing handle methods")
+    R.floor(8, "borrowing handle methods")
     return R
 
 
@@ -189,7 +189,7 @@ def rule_l_use(ctx):
     # de-duplicate
     seen = set()
     R.violations = [v for v in R.violations if not (v.key in seen or seen.add(v.key))]
-    R.floor(3, "bodies holding a bucket across an invalidating call")
+    R.floor(2, "bodies holding a bucket across an invalidating call")
     return R
 
 
@@ -296,17 +296,16 @@ def rule_n_ins(ctx):
         vp = body.op_path(c.args[2]) if len(c.args) > 2 else None
         user_value = vp is not None and 1 <= vp.root <= body.arg_count and not vp.fields()
         built = False
-        for loc, st in body.all_assigns():
-            rv = st["rv"]
-            if rv["k"] == "aggregate" and rv.get("adt") == ctx.roles.B and st["place"]["local"] == 0:
-                q = body.op_path(rv["ops"][ctx.roles.B_bucket])
-                if q is not None and q.root == c.dest["local"]:
-                    built = True
+        for rb in body.return_blocks():
+            ret_op = {"k": "copy", "place": {"local": 0, "proj": [], "ty": body.locals[0]["ty"]}}
+            s_, _ = body.slice_back(Loc(rb, len(body.stmts(rb))), [ret_op])
+            if c.loc in s_ and ctx.facts.types[body.locals[0]["ty"]].get("adt") == ctx.roles.B:
+                built = True
         R.inst(fn=body.path, site=c.where(), verdict="ok" if (user_value and built) else "VIOLATION")
         if not (user_value and built):
             R.viol("%s:raw" % body.path, c.where(), "the table's insertion does not return the bucket hashbrown produced for the caller's value")
-    if n < 6:
-        R.anchor("handle-inserts", "expected >= 6 inserting handle methods, found %d" % n)
+    if n < 4:
+        R.anchor("handle-inserts", "expected >= 4 inserting handle methods, found %d" % n)
     if m < 1:
         R.anchor("raw-insert", "no user insertion found")
     return R
